@@ -4,10 +4,13 @@
  "file": "attr.c", "function": "gnuattr", "also_functions": ["gnuattrspec", "parseattr"],
  "properties": {"C10": "contract"},
  "mode": "harness",
- "unwind": 12,
- "cflags": ["-DV_K=1", "-DV_SYNTAX"],
+ "unwind": 12, "unwindset": ["gnuattr.0:4", "gnuattrspec.0:4", "parseattr.0:7", "harness.0:3", "harness.1:3"],
+ "variants": {"p_p":   ["-DV_SYNTAX", "-DV_K=1", "-DV_N0=2", "-DV_E00=EL_PACKED", "-DV_E01=EL_PACKED", "-DV_N1=0", "-DV_E10=0"],
+              "f_up":  ["-DV_SYNTAX", "-DV_K=1", "-DV_N0=2", "-DV_E00=EL_FOO", "-DV_E01=EL_UPACKED", "-DV_N1=0", "-DV_E10=0"],
+              "fl_f":  ["-DV_SYNTAX", "-DV_K=1", "-DV_N0=2", "-DV_E00=EL_FOO_LIST", "-DV_E01=EL_FOO", "-DV_N1=0", "-DV_E10=0"]},
+ "canary_variant": "p_p",
  "kind": "bounded",
- "bound": "`__attribute__ (( e0 e1 )) ;` with e0, e1 two ATTRIBUTES (not commas) out of packed, __packed__, foo, foo(1,1), foo((1))",
+ "bound": "`__attribute__ (( e0 e1 )) ;` with (e0, e1) = (packed, packed), (foo, __packed__), (foo(1,1), foo): two attributes without a comma",
  "timeout": 200, "replay": false,
  "assumes": ["FAILS on the pinned tree (genuine defect): gnuattrspec() loops `while (parseattr(..) || consume(TCOMMA))`, so the comma between attributes is optional: `int x __attribute__((unused used));` and `struct __attribute__((packed packed)) S { char c; int i; };` compile with exit status 0 (gcc: expected ')' before 'used'); GCC manual: an attribute list is a comma-separated sequence",
              "the harness is that of gnuattr_seq.c compiled with -DV_SYNTAX"]
